@@ -48,6 +48,8 @@ func init() {
 		mutant{"RunPending reports timeout", "io.go",
 			"\t\tif ioc.poller.Pending() <= 0 {\n\t\t\tbreak\n\t\t}\n\n\t\tif err := ioc.RunOne(); err != nil && err != sonicerrors.ErrTimeout {",
 			"\t\tif ioc.poller.Pending() <= 0 {\n\t\t\tbreak\n\t\t}\n\n\t\tif err := ioc.RunOne(); err != nil {", "C03-R4"},
+		mutant{"posted handler counted after it is published", "internal/poll_linux.go",
+			"\tp.posts = append(p.posts, handler)\n\tatomic.AddInt64(&p.pending, 1)\n\tp.lck.Unlock()\n", "\tp.posts = append(p.posts, handler)\n\tp.lck.Unlock()\n\tatomic.AddInt64(&p.pending, 1)\n", "C03-R6"},
 		mutant{"Pending read without atomic", "internal/poll_linux.go", "return atomic.LoadInt64(&p.pending)", "return p.pending", "C03-R5"},
 		mutant{"waker counted as pending", "internal/poll_linux.go", "\t// ignore the waker\n\tatomic.AddInt64(&p.pending, -1)\n", "\t// ignore the waker\n", "C03-R1"},
 	)
@@ -161,6 +163,46 @@ func runC03(c *Ctx) {
 				continue
 			}
 			c.bad(fn, "pending", a.Instr.Pos(), "plain %s of the counter; Post updates it from other goroutines", a.Kind)
+		}
+	}
+
+	// ------------------------------------------------------------------------------------------------ R6
+	c.rule("C03-R6", "a posted handler is counted before it becomes visible to the dispatcher: the increment precedes the release of the queue mutex that publishes the append", 1)
+	{
+		postsF := p.Field("internal", "poller", "posts")
+		lckF := p.Field("internal", "poller", "lck")
+		for _, fn := range internalFuncs {
+			for _, a := range deepStoresTo(fn, postsF) {
+				if !isAppendOf(a.Store.Val) {
+					continue
+				}
+				// the first Unlock of the queue mutex after the append (in the function that holds the store)
+				home := a.Store.Parent()
+				var unlocks []ssa.Instruction
+				eachInstr(home, func(in ssa.Instruction) {
+					call, ok := in.(ssa.CallInstruction)
+					if !ok || call.Common().StaticCallee() == nil || call.Common().StaticCallee().Name() != "Unlock" || len(call.Common().Args) == 0 {
+						return
+					}
+					if fv, _ := fieldAddrOf(call.Common().Args[0]); fv == lckF && (dominatesInstr(a.Store, in) || isDeferred(in)) {
+						unlocks = append(unlocks, in)
+					}
+				})
+				counted := false
+				eachInstr(home, func(in ssa.Instruction) {
+					if d, ok := atomicAddDelta(in, pending); ok && d == 1 {
+						for _, u := range unlocks {
+							if dominatesInstr(in, u) || isDeferred(u) {
+								counted = true
+							}
+						}
+					}
+				})
+				if a.Store.Parent() != fn {
+					continue // judged in the helper itself
+				}
+				c.check(len(unlocks) > 0 && counted, fn, "count before publish", a.Store.Pos(), "pending is incremented before the mutex that publishes the handler is released", "the handler is appended and the mutex released before pending is incremented: the dispatcher can run it and decrement first, Pending() dips below the true count and RunPending can return with operations still in flight")
+			}
 		}
 	}
 
